@@ -118,6 +118,18 @@ def reset_symbol_tables():
 def exc_site(exc):
     """(exception type, function, file) of the innermost frame inside fparser; for
     SystemExit (raised by FortranReaderBase.error) the frame that CALLED error()."""
+    # an InternalError that passes through nested scoping units leaves the inner scope open;
+    # the clean-up of an outer unit (Main_Program0.match's finally) then raises SymbolTableError,
+    # which hides it: report the ROOT exception of the chain (the defect), not the mask
+    if type(exc).__name__ == "SymbolTableError":
+        c = exc.__context__
+        hops = 0
+        while c is not None and hops < 20:
+            if type(c).__name__ == "InternalError":
+                exc = c
+                break
+            c = c.__context__
+            hops += 1
     tb = exc.__traceback__
     frames = []
     while tb is not None:
